@@ -102,6 +102,10 @@ def denominators(t):
     """Return the list of denominators occurring in t."""
     if t.is_divides():
         return denominators(t.arg1) + denominators(t.arg) + [t.arg]
+    elif t.is_real_power() and not (t.arg.is_number() and t.arg.dest_number() >= 0):
+        # x ^ p with a negative (or unknown) exponent divides by x, and
+        # 0 ^ p = 0 in HOL while SymPy cancels x ^ p * x ^ (-p) to 1
+        return denominators(t.arg1) + denominators(t.arg) + [t.arg1]
     elif t.is_comb():
         return denominators(t.fun) + denominators(t.arg)
     elif t.is_abs():
